@@ -1,6 +1,7 @@
 //! C04 / C05 — execution under resolver schedules (shared by bin/c04.rs and bin/c05.rs).
 //!
-//! Case:   (case SCHEMA DOC OPNAME VARS WORLD TEXT (scheds (sc INTENDED (sched ((PATH…) KEY L C K) …)) …))
+//! Case:   (case SCHEMA DOC OPNAME VARS WORLD TEXT (scheds (sc INTENDED (sched ((PATH…) KEY L C K) …)) …) KIND)
+//!   KIND = once | order | nonnull (the stream: which predicate the judge applies)
 //!   the first five parts as in C01/C03; every schedule assigns a gate `k` (number of polls a
 //!   resolver stays Pending) to resolver occurrences identified by (response path of the parent
 //!   position, response key, source position); unlisted occurrences have k = 0.
@@ -253,6 +254,9 @@ pub fn gen_case(rng: &mut Rng, _i: usize, o: &Opts, dist: &mut Dist) -> Sexp {
     }
     SD.with(|sd| {
         let stream = o.stream.as_str();
+        if stream == "witness" {
+            return witness_case(sd, _i);
+        }
         let op_ty = match stream {
             "once" => {
                 if rng.chance(1, 2) { "mutation" } else { "query" }
@@ -262,7 +266,7 @@ pub fn gen_case(rng: &mut Rng, _i: usize, o: &Opts, dist: &mut Dist) -> Sexp {
         dist.hit(&format!("op_{op_ty}"));
         let budget = match stream {
             "once" => 6 + rng.below(6),
-            _ => *rng.pick(&[3usize, 4, 5, 6, 8, 10, 12]),
+            _ => *rng.pick(&[4usize, 5, 6, 8, 10, 12, 14]),
         };
         let directives = rng.chance(1, 4);
         let (mut doc, vars) = gen_request_b(sd, rng, dist, op_ty, directives, budget, 3);
@@ -329,6 +333,48 @@ pub fn gen_case(rng: &mut Rng, _i: usize, o: &Opts, dist: &mut Dist) -> Sexp {
             }
         }
         parts.push(node("scheds", scheds));
+        parts.push(atom(match stream { "once" => "once", "nonnull" => "nonnull", _ => "order" }));
         node("case", parts)
     })
+}
+
+// ------------------------------------------------------------------ the witnesses of the two findings (corpus)
+
+fn fld(name: &str, sels: Vec<SelN>) -> SelN {
+    SelN::Field { alias: None, name: name.into(), args: vec![], dirs: vec![], sels, pos: (0, 0) }
+}
+
+/// 0: `mutation Op { num num }` (C04: one response key, two resolver runs);
+/// 1: `{ a { name num } }` with both nullable fields of A failing, completing in either order (C05)
+fn witness_case(sd: &SchemaD, i: usize) -> Sexp {
+    let (op_ty, sels, entries, kind) = if i % 2 == 0 {
+        ("mutation", vec![fld("num", vec![]), fld("num", vec![])], vec![((0u32, "num".to_string()), RVal::Leaf(GV::Int(1)))], "once")
+    } else {
+        (
+            "query",
+            vec![fld("a", vec![fld("name", vec![]), fld("num", vec![])])],
+            vec![
+                ((0u32, "a".to_string()), RVal::Obj("A".into(), 1)),
+                ((1u32, "name".to_string()), RVal::Fail("boom-name".into())),
+                ((1u32, "num".to_string()), RVal::Fail("boom-num".into())),
+            ],
+            "order",
+        )
+    };
+    let mut doc = DocN { ops: vec![OpN { ty: op_ty.into(), name: Some("Op".into()), vars: vec![], sels }], frags: vec![] };
+    let text = print_doc(&mut doc);
+    let mut scheds = vec![sched_sexp(atom("none"), &[])];
+    if i % 2 == 1 {
+        if let SelN::Field { sels, .. } = &doc.ops[0].sels[0] {
+            if let SelN::Field { pos, .. } = &sels[0] {
+                let k: GateKey = (vec![Seg::Key("a".into())], "name".into(), *pos);
+                scheds.push(sched_sexp(atom("none"), &[(k, 1)]));
+            }
+        }
+    }
+    let w = World::new(entries);
+    node(
+        "case",
+        vec![sd.to_sexp(), doc.to_sexp(), st("Op"), vars_sexp(&[]), w.to_sexp(), st(text), node("scheds", scheds), atom(kind)],
+    )
 }
